@@ -16,6 +16,7 @@ from btclib.curves.curve import CURVES, double_mult_var, is_libsecp256k1_serving
 from btclib.descriptors.descriptors import add_checksum
 from btclib.descriptors.descriptors import parse as parse_descriptor
 from btclib.ecc import dsa, musig2, ssa
+from btclib.alias import INF
 from btclib.exceptions import BTClibRuntimeError, BTClibTypeError, BTClibValueError
 from btclib.hashes import reduce_to_hlen
 from btclib.mnemonic import mnemonic as mnemonic_mod
@@ -161,7 +162,14 @@ def check_nonce(case):
                     key = keys[(i + 1) % len(keys)]
                 if kind == "sign-bad-session":
                     bad = [b"\x02" + bytes(31) + b"\x05" + w["ctx"].agg_nonce[33:], w["ctx"].agg_nonce][0]  # x = 5 is no point of secp256k1
-                    ctx = musig2.SessionContext(bad, w["pub_keys"], w["tweaks"], w["xonly"], w["msg"]) if o["x"] % 2 == 0 else musig2.SessionContext(w["ctx"].agg_nonce, w["pub_keys"], [*w["tweaks"], N.to_bytes(32, "big")], [*w["xonly"], True], w["msg"])
+                    try:
+                        ctx = musig2.SessionContext(bad, w["pub_keys"], w["tweaks"], w["xonly"], w["msg"]) if o["x"] % 2 == 0 else musig2.SessionContext(w["ctx"].agg_nonce, w["pub_keys"], [*w["tweaks"], N.to_bytes(32, "big")], [*w["xonly"], True], w["msg"])
+                    except LIBEXC:
+                        # a context that refuses to be made of an aggregate nonce that is no point, or of a tweak equal to n: no signing attempt, the nonce is as it was
+                        if bytes(nz["sec"]) != before:
+                            raise Violation("nonce:touched-by-a-context-that-was-never-made", f"step {step}") from None
+                        tags.add("bad-session-refused-at-construction")
+                        continue
                 arg = nz["sec"]
                 if kind == "copy-sign":
                     # the caller's forbidden copy is not protected and not modelled; the copy is a different bytearray, spent on its own
@@ -188,8 +196,12 @@ def check_nonce(case):
                 except LIBEXC as e:
                     out, err = None, e
                 after = bytes(nz["sec"])
+                if kind == "sign-view" and isinstance(err, BTClibTypeError) and after == before:
+                    # sign() declares a bytearray: a view of one may be refused as not of the declared type, and then nothing was read or spent
+                    tags.add("view-refused-by-type")
+                    continue
                 if nz["state"] != "fresh":
-                    tags.add("sign-after-spent")
+                    tags.add("sign-after-copy" if nz["state"] == "dead-by-copy" else "sign-after-spent")
                     if out is not None:
                         raise Violation("nonce:signed-twice-with-one-nonce", f"step {step}: a spent secnonce produced the partial signature {out.hex()} (first use: {nz['state']})")
                     if after[:64] != bytes(64):
@@ -198,9 +210,14 @@ def check_nonce(case):
                 if kind == "sign-bad-session":
                     if out is not None:
                         raise Violation("nonce:signed-in-a-session-that-does-not-assemble", f"step {step}")
-                    if after != before:
-                        raise Violation("nonce:touched-before-the-session-assembled", f"step {step}: documented as reusable after a session that does not assemble")
-                    tags.add("bad-session-keeps-nonce")
+                    # untouched (what the docstring says) or burnt (safer still): the model follows what it sees; a half-written nonce is neither
+                    if after[:64] == bytes(64) and before[:64] != bytes(64):
+                        nz["state"] = f"spent@{step}:{kind}"
+                        tags.add("bad-session-burns-nonce")
+                    elif after != before:
+                        raise Violation("nonce:half-written-after-refusal", f"step {step}")
+                    else:
+                        tags.add("bad-session-keeps-nonce")
                     continue
                 if kind == "sign-wrong-key":
                     # no signature is made; whether the attempt burns the nonce is the library's choice (it does: read-then-zero),
@@ -216,7 +233,7 @@ def check_nonce(case):
                 # a partial signature is about to be judged: from here on the nonce must be dead
                 if after[:64] != bytes(64) and out is not None:
                     raise Violation("nonce:not-zeroed-after-signing", f"step {step} kind {kind}")
-                if after[64:] != before[64:]:
+                if after[64:] not in (before[64:], bytes(len(before) - 64)):  # the key the nonce was made for stays, or is wiped with the rest
                     raise Violation("nonce:public-key-part-changed", f"step {step}")
                 nz["state"] = f"spent@{step}:{kind}"
                 mine = nz is pool[0]
@@ -334,8 +351,24 @@ def _sig_count(psbt: Psbt) -> int:
     return sum(len(i.partial_sigs) + (1 if i.taproot_key_spend_signature else 0) + len(i.taproot_script_spend_signatures) for i in psbt.inputs)
 
 
+def _comparable(psbt: Psbt):
+    """What two answers to one signing request must share: the psbt with every BIP340 signature taken out (they are randomized by design: auxiliary
+    data is drawn per signature, and where it is drawn from is the library's affair), plus the places that hold one. The ECDSA signatures are RFC6979's
+    and stay."""
+    psbt = Psbt.b64decode(psbt.b64encode())
+    slots = []
+    for i, pin in enumerate(psbt.inputs):
+        slots.append((i, bool(pin.taproot_key_spend_signature), sorted(pin.taproot_script_spend_signatures)))
+        pin.taproot_key_spend_signature = b""
+        pin.taproot_script_spend_signatures = {}
+    return psbt.b64encode(check_validity=False), slots
+
+
 class _Spy:
     """A KeyManager that forwards to a SoftwareSigner's three KeyManager methods and counts the signatures they return."""
+
+    def __getattr__(self, name):  # whatever else a KeyManager may be asked some day is the signer's to answer
+        return getattr(self.signer, name)
 
     def __init__(self, signer):
         self.signer = signer
@@ -360,7 +393,7 @@ def check_software(case):
     world = case["world"]
     base = worlds.run_world({**world, "stop_after": "estimate"})
     if not base["ok"]:
-        raise Violation(f"software:world-refused:{base.get('stage')}", str(base.get("error")))
+        return Outcome(False, (f"world-refused:{base.get('stage')}",))  # building and updating the psbt is other properties' ground (C10, C14)
     unsigned_b64 = base["unsigned_psbt_b64"]
     seed = world["seeds"][case["which"] % len(world["seeds"])]
     xprv = rootxprv_from_seed(seed)
@@ -416,8 +449,8 @@ def check_software(case):
                 want, want_err = None, e
             if (err is None) != (want_err is None):
                 raise Violation(f"software:open-signer-differs-from-a-fresh-one:{kind}", f"step {step}: {err} vs {want_err}")
-            a = out.b64encode() if isinstance(out, Psbt) else out
-            b = want.b64encode() if isinstance(want, Psbt) else want
+            a = _comparable(out) if isinstance(out, Psbt) else out
+            b = _comparable(want) if isinstance(want, Psbt) else want
             if a != b:
                 raise Violation(f"software:history-dependent-answer:{kind}", f"step {step}")
             if kind == "sign_psbt" and out is not None and _sig_count(out) > 0:
@@ -714,7 +747,7 @@ def model_answer(spec, shared):
         k = a["k"] % N
         Q = fastec.G if a["g"] else fastec.mul(a["q"] % (N - 1) + 1, fastec.G)
         R = fastec.mul(k, Q) if k else None
-        return ["ok", list(R) if R else [5, 0]]  # the library spells infinity (5, 0)
+        return ["ok", list(R) if R else list(INF)]  # infinity as the library spells it
     if spec["fn"] == "musig_verify":
         return ["ok", bool(a["valid"])]
     if spec["fn"] == "musig_agg":
@@ -897,6 +930,7 @@ def check_schedule(case):
         # the flag's readers are yield points only where a thread flips the flag: elsewhere they are noise that narrows the windows that matter
         watched = WATCHED if case["scenario"] in ("flip", "mixed") else WATCHED - {"_libsecp256k1_serves"}
         sched = Scheduler(case["schedule"], watched, ROOT, opcodes=case["opcodes"])
+        clear_caches()  # again, now that the calls are built: preparing their arguments (public keys, points) in this thread has warmed the tables the threads are to fill
         results, stats = sched.run(thunks)
     finally:
         set_libsecp256k1_serving(serving=prev)
@@ -955,7 +989,8 @@ def check_stress(case):
         for t in ths:
             t.join(120)
         if any(t.is_alive() for t in ths):
-            raise Violation("stress:threads-did-not-finish", "120 s")
+            # elapsed time is not a verdict (the calls take about a second on an idle machine): inconclusive
+            return Outcome(False, ("inconclusive:threads-still-running-after-120s",))
     finally:
         sys.setswitchinterval(old)
         set_libsecp256k1_serving(serving=prev)
@@ -969,11 +1004,18 @@ def check_stress(case):
 
 
 def validate_models() -> None:
-    problems = m327.validate(None) if m327.validate.__code__.co_argcount == 0 else []
+    import json
+    import os
+
+    from vlib.runner import VERIF
+
+    def load(name):
+        with open(os.path.join(VERIF, "vectors", "bip327", name)) as f:
+            return json.load(f)
+
+    problems = m327.validate(load)
     if problems:
         raise HarnessError(f"bip327_ref fails its vectors: {problems[:3]}")
-    if ec_ref is None:
-        raise HarnessError("ec_ref missing")
 
 
 SUBCHECKS = [
